@@ -557,7 +557,19 @@ def guard_kinds(guards):
     for c, v in guards:
         if not isinstance(c, tuple) or (c and c[0] == "loop"):
             continue
-        ks = {PRIMS[x[1]] for x in subterms(c) if x[0] == "name" and x[1] in PRIMS}
+        # only tests on the *interpreted equation's own* primitive select an arm; a primitive mentioned in a test about some other
+        # equation (a helper searching a sub-jaxpr for sampling sites) is part of that arm's body, not of the dispatch
+        ks = set()
+        tests = [x for x in subterms(c) if x[0] == "cmp" or (is_call(x) and x[1][0] == "name" and x[1][1].endswith("PPPrimitive.check"))]
+        for tst in tests or [c]:
+            names = {PRIMS[x[1]] for x in subterms(tst) if x[0] == "name" and x[1] in PRIMS}
+            if not names:
+                continue
+            its = [x for x in subterms(tst) if x[0] == "iter"]
+            outer = [x for x in its if x[2][0] == "attr" and x[2][2] == "eqns" and x[2][1][0] == "param"]
+            if its and not outer:
+                continue
+            ks |= names
         (pos if v else neg).update(ks)
     return frozenset(pos - neg if pos else set()), frozenset(neg)
 
